@@ -388,6 +388,12 @@ func genC09Plan(r *zsim.Rng) *sysPlan {
 	}
 	p.Match.Tac = r.Chance(1, 4)
 	n := []int{0, 1, 2, r.Range(3, 12), r.Range(10, 60), r.Range(50, 400)}[r.Intn(6)]
+	// now and then: several chunks of 100 records inside a --tail window, arriving in stages, so that the
+	// trimming cuts through chunks that earlier snapshots (and the selection) still refer to
+	bigStream := r.Chance(1, 12)
+	if bigStream {
+		n = r.Range(300, 900)
+	}
 	p.Lines = lineSpec{N: n, Seed: r.Seed53(), Shape: r.Intn(4)}
 	switch r.Intn(4) {
 	case 0:
@@ -421,7 +427,7 @@ func genC09Plan(r *zsim.Rng) *sysPlan {
 	}
 	// streamed input: the producer writes the records in stages while the user is already at work
 	feeds := 0
-	if n >= 3 && r.Chance(1, 3) {
+	if n >= 3 && (bigStream || r.Chance(1, 3)) {
 		feeds = r.Range(1, 3)
 		left := n
 		for i := 0; i < feeds; i++ {
@@ -441,6 +447,10 @@ func genC09Plan(r *zsim.Rng) *sysPlan {
 			}
 		}
 		if r.Chance(1, 2) {
+			p.Multi = -1
+		}
+		if bigStream {
+			p.Tail = r.Range(110, 420)
 			p.Multi = -1
 		}
 		p.HoldOpen = r.Chance(1, 3)
